@@ -1,0 +1,12 @@
+// Copyright ©2011-2012 The bíogo Authors. All rights reserved.
+// Use of this source code is governed by a BSD-style
+// license that can be found in the LICENSE file.
+
+//go:build !verif
+// +build !verif
+
+package concurrent
+
+// verifStep marks a step of a Processor worker or of Promise.Wait. It does
+// nothing unless the package is built with the verif tag (see verif_on.go).
+func verifStep(step string) {}
